@@ -38,6 +38,16 @@ func c08cli(c *h.Ctx) {
 			taskDir = real + "/taskdir"
 			os.MkdirAll(taskDir, 0o755)
 		}
+		// the task's dir may be a template over a variable that stages override: every execution must land in the
+		// directory its OWN variables select
+		tplDir := r.Chance(35)
+		if tplDir {
+			taskDir = real + "/dir-of-{{ .CVAR }}"
+			os.MkdirAll(real+"/dir-of-task-cvar", 0o755)
+		}
+		// one variation whose value is template text over the same variable: whether taskctl renders it or not, what
+		// an execution sees must be derived from its own variables only
+		tplVariation := r.Chance(35)
 		arr := []string{"parallel", "chain", "mixed"}[r.Intn(3)]
 		type st struct {
 			id, dir   string
@@ -65,8 +75,9 @@ func c08cli(c *h.Ctx) {
 					s.vars["V_"+id] = "var-of-" + id
 					varKeys["V_"+id] = true
 				}
-				if r.Chance(30) {
+				if r.Chance(30) || ((tplDir || tplVariation) && r.Chance(50)) {
 					s.vars["CVAR"] = "cvar-of-" + id
+					os.MkdirAll(real+"/dir-of-cvar-of-"+id, 0o755)
 				}
 				if r.Chance(40) {
 					s.dir = real + "/stagedir-" + id
@@ -108,6 +119,10 @@ func c08cli(c *h.Ctx) {
 		}
 		format += " stagename=[{{index . \".Stage.Name\"}}] pwd=[%s] pwdvar=[%s]"
 		argv += " \"$(pwd)\" \"$PWD\""
+		if tplVariation {
+			format += " who=[%s]"
+			argv += " \"$WHO\""
+		}
 		line := func(where string) string {
 			return fmt.Sprintf("printf '%s where=[%s]\\n'%s >> '%s'", format, where, argv, trace)
 		}
@@ -117,6 +132,9 @@ func c08cli(c *h.Ctx) {
 			// hooks of the shared task see the same overrides; a hook that (re)assigns a variable must not carry it over
 			tdef.Set("before", []interface{}{"COMMON=${COMMON:-unset}; " + line("before")})
 			tdef.Set("after", []interface{}{line("after")})
+		}
+		if tplVariation {
+			tdef.Set("variations", []interface{}{gen.OM{{K: "WHO", V: "who-{{ .CVAR }}"}}})
 		}
 		namedCtx := r.Chance(40) // the shared task runs in a named execution context (one object for all runs)
 		if namedCtx {
@@ -229,6 +247,15 @@ func c08cli(c *h.Ctx) {
 			}
 			if g := kv["stagename"]; (wantStage == "" && !absentVal(g)) || (wantStage != "" && !absentVal(g) && g != wantStage) {
 				c.Violate("cli-stage-name-leak", fmt.Sprintf("%s sees .Stage.Name=%q", where, g), cas)
+			}
+			if tplDir && wantDir == taskDir {
+				wantDir = real + "/dir-of-" + wantVars["CVAR"]
+			}
+			if tplVariation && kv["where"] == "cmd" { // hooks run outside the variations
+				if g := kv["who"]; g != "who-{{ .CVAR }}" && g != "who-"+wantVars["CVAR"] {
+					c.Violate("cli-variation-value-of-another-stage", fmt.Sprintf("%s: variation value $WHO=%q; from its own variables it is %q (or the unrendered text)", where, g, "who-"+wantVars["CVAR"]), cas)
+				}
+				c.Count("cli_templated_variation_lines", 1)
 			}
 			if g := kv["pwd"]; g != wantDir {
 				c.Violate("cli-dir", fmt.Sprintf("%s ran in %q, the statement requires %q", where, g, wantDir), cas)
